@@ -14,6 +14,10 @@ CONSTANTS
   Fall = 1
   MaxRounds = 1000000
   MaxConns = 1000000
+  NoMonitor = FALSE
+  MaxRefuse = 1000000
+  MaxClose = 1000000
+  FailedDialLeaks = FALSE
   MaxHalf = 1000000
   WatcherLeaves = {}
   MaxToggles = 1000000
